@@ -512,6 +512,17 @@ func c14EvalBuilder(w *mc.W, cas c14Bld) {
 						mM = v
 					}
 				}
+			case "Other":
+				// ANOTHER builder goes through its whole life now (different key, P, M, elements): the builder
+				// under test must not notice
+				ob := builder.WithKeyPNM(k2, 5, 3, 50).AddEntry([]byte("zz")).AddEntry([]byte("a")).AddHash(&h)
+				of, oerr := ob.Build()
+				w.Eval()
+				if oerr != nil || of == nil || of.N() != 3 {
+					fail("another-builder-disturbed", fmt.Sprintf("%s: a second builder used in between fails or has the wrong element count: %v", where, oerr))
+				} else if ok, _ := of.Match(k2, []byte("zz")); !ok {
+					fail("another-builder-disturbed", where+": the second builder's filter does not match its own element")
+				}
 			case "Preallocate":
 				b = b.Preallocate(4)
 			case "AddEntry:a", "AddEntry:b":
@@ -775,6 +786,34 @@ func runC14(c *mc.Ctx) {
 		c.ParFor(int64(len(chains)*len(more)), func(w *mc.W, i int64) {
 			w.State()
 			c14EvalBuilder(w, c14Bld{Ctor: more[i%int64(len(more))], Ops: chains[i/int64(len(more))]})
+		})
+	}
+	// another builder's whole life inserted at every position (and at two) of a few base chains, all
+	// ten constructors: builders must be independent of each other
+	{
+		all := []string{"WithKeyPNM", "WithKeyHash", "WithKey", "WithKeyPNM-badP", "WithKeyPM", "WithKeyHashPM", "WithKeyHashPNM", "WithRandomKey", "WithRandomKeyPM", "WithRandomKeyPNM"}
+		bases := [][]string{{"AddEntry:a", "AddEntry:b", "Build"}, {"AddEntries:a,c", "SetP:32", "Build", "AddEntry:b", "Build"}, {"AddHash", "Key", "SetKey", "Build"}, {"SetM:1", "AddEntries:,b", "Build", "Key"}}
+		var inter []c14Bld
+		for _, ct := range all {
+			for _, bs := range bases {
+				for i := 0; i <= len(bs); i++ {
+					for j := i; j <= len(bs); j++ {
+						ops := append([]string{}, bs[:i]...)
+						ops = append(ops, "Other")
+						ops = append(ops, bs[i:j]...)
+						if j > i {
+							ops = append(ops, "Other")
+						}
+						ops = append(ops, bs[j:]...)
+						inter = append(inter, c14Bld{Ctor: ct, Ops: ops})
+					}
+				}
+			}
+		}
+		c.Space("builder chains with another builder's whole life inserted at one or two positions x 10 constructors", int64(len(inter)))
+		c.ParFor(int64(len(inter)), func(w *mc.W, i int64) {
+			w.State()
+			c14EvalBuilder(w, inter[i])
 		})
 	}
 	c.Sample("builder", c14Bld{Ctor: "WithKey", Ops: []string{"AddEntry:a", "SetP:33", "Build"}})
